@@ -132,7 +132,7 @@ def sections(env):
     env.holds("C20", "build_sections: wrong number of user meshes -> ValueError", _raises(lambda: build_sections(d)) == "ValueError")
 
 
-@job("c20.user_data", ("C20", "C14"), ranges=[(r".*", -1.5, 1.5)])
+@job("c20.user_data", ("C20", "C14", "C04", "C07"), ranges=[(r".*", -1.5, 1.5)])
 def user_data(env):
     """the mesh utilities return new arrays and leave the arrays they are given untouched; unify_mesh shifts and
     concatenates the sections as documented"""
@@ -142,7 +142,7 @@ def user_data(env):
     keep = np.array(m, dtype=object if env.sym else float)
     full = env.call(getFullMesh, m)
     env.eq("C20", "getFullMesh leaves the mesh it is given unchanged", m, keep)
-    env.eq("C20,C14", "getFullMesh == [mesh, mirror image without the shared section]", full,
+    env.eq("C20,C14,C04,C07", "getFullMesh == [mesh, mirror image without the shared section]", full,
            np.concatenate([keep, (keep * np.array([1, -1, 1]))[:, ::-1, :][:, 1:, :]], axis=1))
     for nsec in (1, 2, 3):
         secs = [env.var("sec%d" % k, (2, 2 + k % 2, 3)) for k in range(nsec)]
